@@ -119,3 +119,171 @@ fn collect(g: &Grammar, e: &Expr, out: &mut Vec<(String, BTreeMap<String, bool>)
         }
     }
 }
+
+// ------------------------------------------------------------------------------------------------
+// Exact-type assertions (C03): Rust code that compiles only if the generated types are the ones the
+// documented mapping prescribes. rustc is the checker.
+
+const RAW_KEYWORDS: [&str; 47] = [
+    "as", "break", "const", "continue", "else", "enum", "extern", "false", "fn", "for", "if", "impl", "in", "let", "loop", "match", "mod", "move",
+    "mut", "pub", "ref", "return", "static", "struct", "trait", "true", "type", "unsafe", "use", "where", "while", "async", "await", "dyn",
+    "abstract", "become", "box", "do", "final", "macro", "override", "priv", "typeof", "unsized", "virtual", "yield", "try",
+];
+
+pub fn rust_ident(name: &str) -> String {
+    if RAW_KEYWORDS.contains(&name) {
+        format!("r#{name}")
+    } else {
+        name.to_string()
+    }
+}
+
+fn type_name(g: &Grammar, rule: &str) -> String {
+    if rule == "char" {
+        return "char".into();
+    }
+    let _ = g;
+    rust_ident(rule)
+}
+
+/// the documented type of a field of `owner` (struct rule or override rule)
+fn field_type(g: &Grammar, owner: &str, body: &Expr, field: &str, types: &BTreeMap<String, bool>) -> String {
+    let inner = if types.len() > 1 {
+        if field == "_override" {
+            rust_ident(owner)
+        } else {
+            format!("{owner}_{field}")
+        }
+    } else {
+        let (t, boxed) = types.iter().next().unwrap();
+        let tn = type_name(g, t);
+        if *boxed {
+            format!("Box<{tn}>")
+        } else {
+            tn
+        }
+    };
+    match arity_of(g, body, field) {
+        Arity::One | Arity::Absent => inner,
+        Arity::Optional => format!("Option<{inner}>"),
+        Arity::Multiple => format!("Vec<{inner}>"),
+    }
+}
+
+fn enum_assertion(g: &Grammar, enum_name: &str, types: &BTreeMap<String, bool>, out: &mut String) {
+    out.push_str(&format!("fn _assert_enum_{}(v: {}) {{ match v {{ ", enum_name.replace("r#", ""), enum_name));
+    for (t, boxed) in types {
+        let tn = type_name(g, t);
+        let payload = if *boxed { format!("Box<{tn}>") } else { tn.clone() };
+        out.push_str(&format!("{}::{}(x) => {{ let _: {} = x; }} ", enum_name, rust_ident(t), payload));
+    }
+    out.push_str("} }\n");
+}
+
+pub fn assertions(g: &Grammar, derives: &Option<Vec<String>>) -> String {
+    let mut out = String::new();
+    out.push_str("fn _is_position<T: peginator::PegPosition>() {}\nfn _is_parser<T: peginator::PegParser>() {}\n");
+    let dset: Vec<String> = derives.clone().unwrap_or_else(|| vec!["Debug".into(), "Clone".into()]);
+    let bounds: Vec<&str> = dset
+        .iter()
+        .map(|d| match d.as_str() {
+            "Debug" => "std::fmt::Debug",
+            "Clone" => "Clone",
+            "PartialEq" => "PartialEq",
+            "Eq" => "Eq",
+            other => panic!("unknown derive {other}"),
+        })
+        .collect();
+    if !bounds.is_empty() {
+        out.push_str(&format!("fn _has_derives<T: {}>() {{}}\n", bounds.join(" + ")));
+    }
+    for r in &g.rules {
+        let rn = rust_ident(&r.name);
+        let flat = r.name.clone();
+        let flags = r.flags();
+        match g.kind(r) {
+            RuleKind::Char => out.push_str(&format!("fn _assert_{flat}(v: {rn}) {{ let _: char = v; }}\n")),
+            RuleKind::Extern => {
+                if let RuleDef::Extern { ret, .. } = &r.def {
+                    let t = match ret {
+                        None => "String".to_string(),
+                        Some(p) => p.iter().map(|s| rust_ident(s)).collect::<Vec<_>>().join("::"),
+                    };
+                    out.push_str(&format!("fn _assert_{flat}(v: {rn}) {{ let _: {t} = v; }}\n"));
+                }
+            }
+            RuleKind::Str => {
+                if flags.position {
+                    out.push_str(&format!(
+                        "fn _assert_{flat}(v: {rn}) {{ let {rn} {{ string, position }} = v; let _: String = string; let _: std::ops::Range<usize> = position; }}\n"
+                    ));
+                    out.push_str(&format!("fn _assert_pos_{flat}() {{ _is_position::<{rn}>(); }}\n"));
+                    if !bounds.is_empty() {
+                        out.push_str(&format!("fn _assert_derives_{flat}() {{ _has_derives::<{rn}>(); }}\n"));
+                    }
+                } else {
+                    out.push_str(&format!("fn _assert_{flat}(v: {rn}) {{ let _: String = v; }}\n"));
+                }
+            }
+            RuleKind::Alias => {
+                let body = r.body().unwrap();
+                let fields = fields_in_order(g, body);
+                let (_, types) = &fields[0];
+                let t = field_type(g, &r.name, body, "_override", types);
+                out.push_str(&format!("fn _assert_{flat}(v: {rn}) {{ let _: {t} = v; }}\n"));
+            }
+            RuleKind::Enum => {
+                let body = r.body().unwrap();
+                let fields = fields_in_order(g, body);
+                let (_, types) = &fields[0];
+                enum_assertion(g, &rn, types, &mut out);
+                if flags.position {
+                    out.push_str(&format!("fn _assert_pos_{flat}() {{ _is_position::<{rn}>(); }}\n"));
+                }
+                if !bounds.is_empty() {
+                    out.push_str(&format!("fn _assert_derives_{flat}() {{ _has_derives::<{rn}>(); }}\n"));
+                }
+            }
+            RuleKind::Struct => {
+                let body = r.body().unwrap();
+                let fields = fields_in_order(g, body);
+                if fields.is_empty() && !flags.position {
+                    // unit struct
+                    out.push_str(&format!("fn _assert_{flat}(v: {rn}) {{ let {rn} = v; }}\n"));
+                } else {
+                    let mut pat: Vec<String> = fields.iter().map(|(f, _)| rust_ident(f)).collect();
+                    if flags.position {
+                        pat.push("position".into());
+                    }
+                    out.push_str(&format!("fn _assert_{flat}(v: {rn}) {{ let {rn} {{ {} }} = v; ", pat.join(", ")));
+                    for (f, types) in &fields {
+                        let t = field_type(g, &r.name, body, f, types);
+                        out.push_str(&format!("let _: {t} = {}; ", rust_ident(f)));
+                    }
+                    if flags.position {
+                        out.push_str("let _: std::ops::Range<usize> = position; ");
+                    }
+                    out.push_str("}\n");
+                    for (f, types) in &fields {
+                        if types.len() > 1 {
+                            enum_assertion(g, &format!("{}_{}", r.name, f), types, &mut out);
+                            if !bounds.is_empty() {
+                                out.push_str(&format!("fn _assert_derives_{flat}_{f}() {{ _has_derives::<{}_{}>(); }}\n", r.name, f));
+                            }
+                        }
+                    }
+                }
+                if flags.position {
+                    out.push_str(&format!("fn _assert_pos_{flat}() {{ _is_position::<{rn}>(); }}\n"));
+                }
+                if !bounds.is_empty() {
+                    out.push_str(&format!("fn _assert_derives_{flat}() {{ _has_derives::<{rn}>(); }}\n"));
+                }
+            }
+        }
+        if flags.export {
+            out.push_str(&format!("fn _assert_parser_{flat}() {{ _is_parser::<{rn}>(); }}\n"));
+        }
+    }
+    out
+}
